@@ -28,7 +28,7 @@ structure EA where
   size : Nat
   alloc : Nat
   buf : List UInt8
-  deriving Repr
+  deriving Repr, DecidableEq
 
 /-- `sizeof(struct elasticarray)` -/
 def structSize : Nat := 24
